@@ -46,14 +46,15 @@ type c02handle struct {
 func runC02(c *rt.C) {
 	r := c.Rng
 	mem := memModes()[c.Index%3]
-	kv := (c.Index/3)%2 == 1
+	kv := (c.Index/3)%3 == 1
+	rev := (c.Index/3)%3 == 2
 	nKeys := 2 + r.Intn(11)
 	nWriters := 1 + r.Intn(4)
 	nOps := 300
 	if c.Tier == "thorough" {
 		nOps = 600
 	}
-	db := OpenDB(DBOpt{Mem: mem, KV: kv})
+	db := OpenDB(DBOpt{Mem: mem, KV: kv, Rev: rev})
 	ws := make([]*nitro.Writer, nWriters)
 	for i := range ws {
 		ws[i] = db.N.NewWriter()
@@ -62,7 +63,7 @@ func runC02(c *rt.C) {
 	for i := range keys {
 		keys[i] = &c02key{}
 	}
-	model := NewModel()
+	model := db.NewModel()
 	type osnap struct {
 		s    *nitro.Snapshot
 		want []Entry
